@@ -131,7 +131,7 @@ def run(ctx):
                         stats["keys_dropped"] += 1
                     f1, f2 = alt_figures(s1[lab]), alt_figures(sh2)
                     for alt, n2 in f2.items():
-                        if alt in f1 and f1[alt] != n2 and alt[2] != 'NONLITERAL':
+                        if alt in f1 and f1[alt] != n2 and (alt[2] != 'NONLITERAL' or cfg0['keep_less_specific']):
                             viol.append({"what": "figure of a surviving alternative differs between thresholds", "label": lab,
                                          "alternative": list(alt), "n_t1": f1[alt], "n_t2": n2, "t1": list(th1), "t2": list(th2),
                                          **pipeline.case_json(g, cfg0)})
